@@ -11,12 +11,12 @@ import (
 )
 
 var plainContainerTypes = []string{"moov", "trak", "mdia", "minf", "stbl", "dinf", "edts", "mvex", "moof", "traf", "mfra", "udta", "sinf", "schi", "ludt",
-	"stsd", "dref", "avc1", "avc3", "hvc1", "hev1", "encv", "av01", "vp08", "vp09"}
+	"stsd", "dref", "avc1", "avc3", "hvc1", "hev1", "encv", "av01", "vp08", "vp09", "vttc", "wvtt"}
 
 // prefixLen: bytes between the header and the first child (Model/Tree.lean `prefixed`)
 func prefixLen(t string) int {
 	switch t {
-	case "stsd", "dref":
+	case "stsd", "dref", "wvtt":
 		return 8
 	case "avc1", "avc3", "hvc1", "hev1", "encv", "av01", "vp08", "vp09":
 		return 78
@@ -115,8 +115,9 @@ var likelyChildren = map[string][]string{
 	"trak": {"tkhd", "edts", "mdia", "free"},
 	"mdia": {"mdhd", "hdlr", "minf", "free"},
 	"minf": {"vmhd", "smhd", "nmhd", "sthd", "dinf", "stbl"},
-	"stsd": {"avc1", "hvc1", "encv", "hev1", "avc3", "av01", "vp09", "vp08"},
+	"stsd": {"avc1", "hvc1", "encv", "hev1", "avc3", "av01", "vp09", "vp08", "wvtt"},
 	"dref": {"free", "skip", "cdat"},
+	"wvtt": {"vttC", "vlab", "btrt"}, "vttc": {"iden", "ctim", "sttg", "payl", "vsid"},
 	"avc1": {"btrt", "pasp", "clap", "SmDm", "CoLL", "sinf"}, "avc3": {"btrt", "pasp"}, "hvc1": {"btrt", "pasp", "clap", "sinf"},
 	"hev1": {"btrt", "pasp"}, "encv": {"sinf", "btrt", "pasp", "sinf"}, "av01": {"av1C", "btrt", "pasp"},
 	"vp08": {"vpcC", "btrt"}, "vp09": {"vpcC", "btrt", "SmDm", "CoLL"},
@@ -165,7 +166,10 @@ func randTree(r *rand.Rand, pool map[string][][]byte, types []string, typ string
 			}
 		}
 		switch pl {
-		case 8: // version, flags, entry count (mostly the right one)
+		case 8: // version, flags, entry count (mostly the right one); wvtt: reserved bytes + data reference index
+			if typ == "wvtt" {
+				break
+			}
 			cnt := nkids
 			if r.Intn(10) == 0 {
 				cnt += r.Intn(3) - 1
